@@ -187,7 +187,7 @@ func zzLoadCertHashes(s *fsm.StateMachine, h uint64) (*lib.QuorumCertificate, li
 }
 func zzFSMStore(s *fsm.StateMachine) lib.RWStoreI { return zzIndexStore }
 
-//zz:harness mode=int unwind=60 maxpaths=60000 timebudget=1200
+//zz:harness mode=int unwind=60 maxpaths=60000 timebudget=1200 param.n@thorough=4
 //zz:reach C02.last.accepted C02.last.rejected
 func ZZ_C02_last_certificate_gate() {
 	n := zzParam("n", 3)
